@@ -167,7 +167,8 @@ Qed.
 (* specification state: basic facts *)
 
 Definition dead_of (s : strm) : strm :=
-  {| st_path := st_path s; st_live := false; st_rtp := 0; st_flv := 0; st_retire := false; st_hls := st_hls s |}.
+  {| st_path := st_path s; st_live := false; st_rtp := 0; st_flv := 0; st_retire := false; st_hls := st_hls s;
+     st_att_total := st_att_total s; st_det_total := st_det_total s |}.
 
 Lemma sp_kill_eq sp i :
   sp_kill sp i = if negb (st_live (sp_get sp i)) then sp else sp_set sp i (dead_of (sp_get sp i)).
@@ -377,6 +378,97 @@ Proof.
 Qed.
 
 (* ------------------------------------------------------------------ *)
+(* UnregistAll: killing a list of registry entries *)
+
+Definition kill_list (sp : sstate) (l : list (bytes * nat)) : sstate :=
+  fold_left (fun g e => sp_kill g (snd e)) l sp.
+
+Lemma kill_list_cons sp e l : kill_list sp (e :: l) = kill_list (sp_kill sp (snd e)) l.
+Proof. reflexivity. Qed.
+
+Lemma keys_ok_kill_list l : forall sp, keys_ok sp -> keys_ok (kill_list sp l).
+Proof.
+  induction l as [|e l IH]; intros sp H; simpl; auto. apply IH, keys_ok_kill, H.
+Qed.
+
+Lemma last_kill_list l : forall sp, sp_last (kill_list sp l) = sp_last sp.
+Proof.
+  induction l as [|e l IH]; intros sp; simpl; auto. rewrite IH. apply last_kill.
+Qed.
+
+Lemma length_kill_list l : forall sp, length (sp_streams (kill_list sp l)) = length (sp_streams sp).
+Proof.
+  induction l as [|e l IH]; intros sp; simpl; auto. rewrite IH. apply length_kill.
+Qed.
+
+Lemma live_kill_list l : forall sp j,
+  st_live (sp_get (kill_list sp l) j) =
+  st_live (sp_get sp j) && negb (existsb (fun e => Nat.eqb j (snd e)) l).
+Proof.
+  induction l as [|e l IH]; intros sp j; simpl.
+  - rewrite andb_true_r. reflexivity.
+  - rewrite IH, live_kill, negb_orb, andb_assoc. reflexivity.
+Qed.
+
+Lemma other_kill_list l : forall sp j,
+  (forall e, In e l -> snd e <> j) -> sp_get (kill_list sp l) j = sp_get sp j.
+Proof.
+  induction l as [|e l IH]; intros sp j H; simpl; auto.
+  rewrite IH by (intros; apply H; right; auto).
+  apply other_kill. intros E. apply (H e); auto. left; reflexivity.
+Qed.
+
+(* one iteration of UnregistAll on an entry of the registry *)
+Lemma unregist_entry sp k i :
+  keys_ok sp -> In (k, i) (g_map (absg sp)) ->
+  close_stream rfixed {| g_map := mdelete (g_map (absg sp)) k; g_streams := g_streams (absg sp) |} i =
+  absg (sp_kill sp i).
+Proof.
+  intros Hok Hin. pose proof Hok as [Hn Hk].
+  unfold absg in Hin; simpl in Hin. apply filter_In in Hin as [Hin Hl]. unfold sp_live in Hl; simpl in Hl.
+  destruct (Hk k i Hin) as [_ Hp].
+  rewrite <- close_is_kill by exact Hok.
+  rewrite <- Hp. change (sp_get sp i) with (sget (absg sp) i).
+  apply close_after_delete.
+  - exact Hl.
+  - rewrite mlookup_absg by exact Hok. unfold sp_resolve.
+    change (sget (absg sp) i) with (sp_get sp i). rewrite Hp.
+    rewrite (in_mlookup _ _ _ Hn Hin), Hl. reflexivity.
+Qed.
+
+Lemma unregist_all_fold l : forall sp,
+  keys_ok sp -> NoDup (map fst l) -> (forall e, In e l -> In e (g_map (absg sp))) ->
+  fold_left (fun g' e => close_stream rfixed {| g_map := mdelete (g_map g') (fst e); g_streams := g_streams g' |} (snd e))
+            l (absg sp) = absg (kill_list sp l).
+Proof.
+  induction l as [|[k i] l IH]; intros sp Hok Hnd Hin; [reflexivity|].
+  simpl fold_left. cbv beta. rewrite kill_list_cons. simpl fst; simpl snd.
+  change {| g_map := mdelete (filter (sp_live sp) (sp_last sp)) k; g_streams := sp_streams sp |}
+    with {| g_map := mdelete (g_map (absg sp)) k; g_streams := g_streams (absg sp) |}.
+  rewrite unregist_entry by (auto; apply Hin; left; reflexivity).
+  inversion Hnd as [|? ? Hni Hnd']; subst.
+  apply IH; [apply keys_ok_kill; exact Hok | exact Hnd' |].
+  intros [k' i'] He. assert (H0 := Hin _ (or_intror He)).
+  unfold absg in *; simpl in *. apply filter_In in H0 as [H1 H2]. apply filter_In.
+  rewrite last_kill. split; [exact H1|].
+  unfold sp_live in *; simpl in *. rewrite live_kill, H2. simpl.
+  apply negb_true_iff, Nat.eqb_neq. intros E. subst i'.
+  destruct Hok as [_ Hk]. destruct (Hk k' i H1) as [_ Hp1].
+  assert (H3 := Hin _ (or_introl eq_refl)). apply filter_In in H3 as [H3 _].
+  destruct (Hk k i H3) as [_ Hp2].
+  apply Hni. apply in_map_iff. exists (k', i). split; [simpl; congruence | exact He].
+Qed.
+
+Lemma unregist_all_refines sp :
+  keys_ok sp ->
+  fst (gstep rfixed (absg sp) GUnregistAll) = absg (fst (sstep sp GUnregistAll)).
+Proof.
+  intros Hok. simpl. apply (unregist_all_fold (filter (sp_live sp) (sp_last sp)) sp Hok).
+  - apply NoDup_map_filter. apply Hok.
+  - auto.
+Qed.
+
+(* ------------------------------------------------------------------ *)
 (* one step: the implementation started in [absg sp] answers like the specification and ends in
    [absg] of the specification's next state *)
 
@@ -391,7 +483,7 @@ Proof. reflexivity. Qed.
 
 Lemma keys_ok_step sp o : keys_ok sp -> keys_ok (fst (sstep sp o)).
 Proof.
-  intros Hok. destruct o as [p hls|i|i|i|p| | |i flv|i flv|i r]; simpl.
+  intros Hok. destruct o as [p hls|i|i|i|p| | |i flv|i flv|i r|]; simpl.
   - apply keys_ok_new; exact Hok.
   - destruct (i <? length (sp_streams sp))%nat eqn:Hi; simpl; [|exact Hok].
     apply Nat.ltb_lt in Hi.
@@ -414,13 +506,14 @@ Proof.
   - destruct (i <? length (sp_streams sp))%nat; simpl; auto.
     destruct ((consumers (sp_get sp i) <=? 0) && negb (r && st_hls (sp_get sp i))); simpl; auto.
     apply keys_ok_kill; exact Hok.
+  - apply (keys_ok_kill_list _ sp Hok).
 Qed.
 
 Lemma step_refines sp o :
   keys_ok sp -> op_wf sp o = true ->
   gstep rfixed (absg sp) o = (absg (fst (sstep sp o)), snd (sstep sp o)).
 Proof.
-  intros Hok Hwf. destruct o as [p hls|i|i|i|p| | |i flv|i flv|i r].
+  intros Hok Hwf. destruct o as [p hls|i|i|i|p| | |i flv|i flv|i r|].
   - (* GNew *) simpl. rewrite absg_new by exact Hok. reflexivity.
   - (* GRegist *)
     simpl in Hwf. apply andb_true_iff in Hwf as [Hi Hl].
@@ -479,6 +572,8 @@ Proof.
     change (v_anycons rfixed) with true. cbv iota.
     destruct ((consumers (sp_get sp i) <=? 0) && negb (r && st_hls (sp_get sp i))); [|reflexivity].
     rewrite close_is_kill by exact Hok. reflexivity.
+  - (* GUnregistAll *)
+    exact (f_equal (fun x => (x, RUnit)) (unregist_all_refines sp Hok)).
 Qed.
 
 Lemma run_refines ops : forall sp,
@@ -491,6 +586,25 @@ Proof.
   specialize (IH _ Hok' Hw2).
   destruct (sstep sp o) as [sp' r]. simpl in *.
   destruct (grun rfixed (absg sp') ops) as [g2 rs]. simpl in *. f_equal. exact IH.
+Qed.
+
+Lemma run_refines_state ops : forall sp,
+  keys_ok sp -> hist_wf sp ops = true -> fst (grun rfixed (absg sp) ops) = absg (sexec sp ops).
+Proof.
+  induction ops as [|o ops IH]; intros sp Hok Hwf; [reflexivity|].
+  rewrite hist_wf_cons in Hwf. apply andb_true_iff in Hwf as [Hw1 Hw2].
+  simpl. rewrite (step_refines sp o Hok Hw1).
+  assert (Hok' := keys_ok_step sp o Hok).
+  specialize (IH _ Hok' Hw2).
+  destruct (sstep sp o) as [sp' r]. simpl in *.
+  destruct (grun rfixed (absg sp') ops) as [g2 rs]. simpl in *. exact IH.
+Qed.
+
+(* the implementation model's end state is the abstraction of the specification's *)
+Theorem impl_end_state : forall ops,
+  hist_wf sinit ops = true -> fst (grun rfixed rinit ops) = absg (sexec sinit ops).
+Proof.
+  intros ops Hwf. rewrite <- absg_init. apply run_refines_state; [apply keys_ok_init | exact Hwf].
 Qed.
 
 (* 1. refinement: on every well-formed history the implementation model answers as the specification *)
@@ -524,14 +638,31 @@ Proof.
   intros ops Hwf. unfold ok_hist_C05. rewrite impl_refines_spec by exact Hwf. apply gouts_eqb_refl.
 Qed.
 
+Lemma zs_eqb_refl a : zs_eqb a a = true.
+Proof. induction a as [|x a IH]; simpl; auto. rewrite Z.eqb_refl. exact IH. Qed.
+
+Lemma end_eqb_refl a : end_eqb a a = true.
+Proof.
+  induction a as [|[[l t] c] a IH]; simpl; auto.
+  rewrite !Z.eqb_refl, IH. destruct l; reflexivity.
+Qed.
+
+Theorem end_vec_refines : forall ops,
+  hist_wf sinit ops = true ->
+  end_vec (g_streams (fst (grun rfixed rinit ops))) = end_vec (sp_streams (sexec sinit ops)).
+Proof. intros ops Hwf. rewrite impl_end_state by exact Hwf. reflexivity. Qed.
+
+(* the whole observation (answers and end vector) of the model passes C05's oracle *)
+Theorem model_passes_end : forall ops,
+  hist_wf sinit ops = true ->
+  ok_hist_end_C05 ops (snd (grun rfixed rinit ops)) (end_vec (g_streams (fst (grun rfixed rinit ops)))) = true.
+Proof.
+  intros ops Hwf. unfold ok_hist_end_C05. rewrite model_passes by exact Hwf.
+  rewrite end_vec_refines by exact Hwf. apply end_eqb_refl.
+Qed.
+
 (* ------------------------------------------------------------------ *)
 (* 3. consequences of the specification, for the states the specification reaches *)
-
-Fixpoint sexec (g : sstate) (ops : list gop) : sstate :=
-  match ops with
-  | [] => g
-  | o :: ops' => sexec (fst (sstep g o)) ops'
-  end.
 
 Lemma sexec_app g a b : sexec g (a ++ b) = sexec (sexec g a) b.
 Proof. revert g; induction a as [|o a IH]; intros g; simpl; auto. Qed.
@@ -555,9 +686,14 @@ Proof.
   intros H. rewrite sp_kill_eq. destruct (negb _); auto. apply cnt_ok_set; simpl; auto; lia.
 Qed.
 
+Lemma cnt_ok_kill_list l : forall sp, cnt_ok sp -> cnt_ok (kill_list sp l).
+Proof.
+  induction l as [|e l IH]; intros sp H; simpl; auto. apply IH, cnt_ok_kill, H.
+Qed.
+
 Lemma cnt_ok_step sp o : cnt_ok sp -> cnt_ok (fst (sstep sp o)).
 Proof.
-  intros Hc. destruct o as [p hls|i|i|i|p| | |i flv|i flv|i r]; simpl.
+  intros Hc. destruct o as [p hls|i|i|i|p| | |i flv|i flv|i r|]; simpl.
   - intros j. unfold sp_get; simpl. rewrite nth_snoc.
     destruct (j <? length (sp_streams sp))%nat; [apply Hc|].
     destruct (Nat.eqb j (length (sp_streams sp))); simpl; lia.
@@ -582,6 +718,7 @@ Proof.
   - destruct (i <? length (sp_streams sp))%nat; simpl; auto.
     destruct ((consumers (sp_get sp i) <=? 0) && negb (r && st_hls (sp_get sp i))); simpl; auto.
     apply cnt_ok_kill; exact Hc.
+  - apply (cnt_ok_kill_list _ sp Hc).
 Qed.
 
 Lemma cnt_ok_init : cnt_ok sinit.
@@ -737,7 +874,7 @@ Qed.
 (* liveness is never regained, and stream numbers are never reused *)
 Lemma length_step sp o : (length (sp_streams sp) <= length (sp_streams (fst (sstep sp o))))%nat.
 Proof.
-  destruct o as [p hls|i|i|i|p| | |i flv|i flv|i r]; simpl; auto.
+  destruct o as [p hls|i|i|i|p| | |i flv|i flv|i r|]; simpl; auto.
   - rewrite app_length. simpl. lia.
   - destruct (i <? length (sp_streams sp))%nat; simpl; auto.
     destruct (sp_resolve sp (st_path (sp_get sp i))) as [j|]; simpl; auto.
@@ -753,6 +890,8 @@ Proof.
   - destruct (i <? length (sp_streams sp))%nat; simpl; auto.
     destruct ((consumers (sp_get sp i) <=? 0) && negb (r && st_hls (sp_get sp i))); simpl; auto.
     rewrite length_kill; auto.
+  - change (length (sp_streams sp) <= length (sp_streams (kill_list sp (filter (sp_live sp) (sp_last sp)))))%nat.
+    rewrite length_kill_list; auto.
 Qed.
 
 Lemma dead_step sp o j :
@@ -766,7 +905,7 @@ Proof.
                                st_live (sp_get (sp_set s i v) j) = false).
   { intros s i v H Hv. rewrite sp_get_set. destruct (Nat.eqb j i && _)%bool eqn:E; auto.
     apply andb_true_iff in E as [E _]. apply Nat.eqb_eq in E. auto. }
-  destruct o as [p hls|i|i|i|p| | |i flv|i flv|i r]; simpl; auto.
+  destruct o as [p hls|i|i|i|p| | |i flv|i flv|i r|]; simpl; auto.
   - unfold sp_get; simpl. rewrite nth_snoc. apply Nat.ltb_lt in Hj. rewrite Hj. exact Hd.
   - destruct (i <? length (sp_streams sp))%nat; simpl; auto.
     destruct (sp_resolve sp (st_path (sp_get sp i))) as [x|]; simpl; auto.
@@ -785,6 +924,8 @@ Proof.
     apply Hset; auto. intros ->. congruence.
   - destruct (i <? length (sp_streams sp))%nat; simpl; auto.
     destruct ((consumers (sp_get sp i) <=? 0) && negb (r && st_hls (sp_get sp i))); simpl; auto.
+  - change (st_live (sp_get (kill_list sp (filter (sp_live sp) (sp_last sp))) j) = false).
+    rewrite live_kill_list, Hd. reflexivity.
 Qed.
 
 Lemma dead_forever ops : forall sp j,
@@ -908,6 +1049,176 @@ Proof.
   rewrite map_length, live_consumers_sum by exact H. auto.
 Qed.
 
+(* (e) shutdown: after UnregistAll no key resolves, every stream that resolved has ended, and the
+   other streams are exactly as they were *)
+Lemma unregist_all_step sp :
+  fst (sstep sp GUnregistAll) = kill_list sp (filter (sp_live sp) (sp_last sp)).
+Proof. reflexivity. Qed.
+
+Lemma resolve_in_live sp k i :
+  keys_ok sp -> (sp_resolve sp k = Some i <-> In (k, i) (filter (sp_live sp) (sp_last sp))).
+Proof.
+  intros [Hn Hk]. unfold sp_resolve. split.
+  - intros H. destruct (mlookup (sp_last sp) k) as [j|] eqn:Hm; [|discriminate].
+    destruct (st_live (sp_get sp j)) eqn:Hl; [|discriminate]. inversion H; subst j.
+    apply filter_In. split; [apply mlookup_in; exact Hm | exact Hl].
+  - intros H. apply filter_In in H as [H1 H2]. rewrite (in_mlookup _ _ _ Hn H1).
+    unfold sp_live in H2; simpl in H2. rewrite H2. reflexivity.
+Qed.
+
+Lemma existsb_snd_in (l : list (bytes * nat)) k i :
+  In (k, i) l -> existsb (fun e => Nat.eqb i (snd e)) l = true.
+Proof.
+  intros H. apply existsb_exists. exists (k, i). split; auto. simpl. apply Nat.eqb_refl.
+Qed.
+
+Theorem unregist_all_closes_everything : forall ops,
+  let sp := sexec sinit ops in
+  let sp' := fst (sstep sp GUnregistAll) in
+  (forall k, sp_resolve sp' k = None) /\
+  (forall k i, sp_resolve sp k = Some i -> st_live (sp_get sp' i) = false) /\
+  (forall i, (forall k, sp_resolve sp k <> Some i) -> sp_get sp' i = sp_get sp i).
+Proof.
+  intros ops sp sp'. assert (Hok : keys_ok sp) by apply reach_keys_ok.
+  unfold sp'. rewrite unregist_all_step.
+  assert (Hdead : forall k i, sp_resolve sp k = Some i ->
+            st_live (sp_get (kill_list sp (filter (sp_live sp) (sp_last sp))) i) = false).
+  { intros k i Hr. apply (resolve_in_live sp k i Hok) in Hr.
+    rewrite live_kill_list, (existsb_snd_in _ k i Hr). apply andb_false_r. }
+  refine (conj _ (conj Hdead _)).
+  - intros k. unfold sp_resolve. rewrite last_kill_list.
+    destruct (mlookup (sp_last sp) k) as [i|] eqn:Hm; [|reflexivity].
+    destruct (st_live (sp_get (kill_list sp _) i)) eqn:Hl; [|reflexivity].
+    exfalso. assert (Hl0 : st_live (sp_get sp i) = true).
+    { rewrite live_kill_list in Hl. apply andb_true_iff in Hl as [Hl _]. exact Hl. }
+    assert (Hr : sp_resolve sp k = Some i) by (unfold sp_resolve; rewrite Hm, Hl0; reflexivity).
+    rewrite (Hdead k i Hr) in Hl. discriminate.
+  - intros i Hn. apply other_kill_list. intros [k j] He E. simpl in E. subst j.
+    apply (Hn k). apply resolve_in_live; assumption.
+Qed.
+
+(* ------------------------------------------------------------------ *)
+(* C03 through the registry: the accounting of consumers.  Per stream: while it is live the
+   consumers ever attached are the attached ones plus the detached ones; once it has ended nobody
+   is attached.  Hence released + attached = ever attached, always. *)
+Definition strm_ok (s : strm) : Prop :=
+  if st_live s then st_det_total s + st_rtp s + st_flv s = st_att_total s
+  else st_rtp s = 0 /\ st_flv s = 0.
+Definition acct_ok (sp : sstate) : Prop := forall i, strm_ok (sp_get sp i).
+
+Lemma acct_ok_set sp i v : acct_ok sp -> strm_ok v -> acct_ok (sp_set sp i v).
+Proof. intros H Hv j. rewrite sp_get_set. destruct (Nat.eqb j i && _)%bool; auto. Qed.
+
+Lemma acct_ok_kill sp i : acct_ok sp -> acct_ok (sp_kill sp i).
+Proof.
+  intros H. rewrite sp_kill_eq. destruct (negb _); auto. apply acct_ok_set; auto.
+  unfold strm_ok; simpl; auto.
+Qed.
+
+Lemma acct_ok_kill_list l : forall sp, acct_ok sp -> acct_ok (kill_list sp l).
+Proof.
+  induction l as [|e l IH]; intros sp H; simpl; auto. apply IH, acct_ok_kill, H.
+Qed.
+
+Lemma acct_ok_step sp o : acct_ok sp -> acct_ok (fst (sstep sp o)).
+Proof.
+  intros Hc. destruct o as [p hls|i|i|i|p| | |i flv|i flv|i r|]; simpl.
+  - intros j. unfold sp_get; simpl. rewrite nth_snoc.
+    destruct (j <? length (sp_streams sp))%nat; [apply Hc|].
+    destruct (Nat.eqb j (length (sp_streams sp))); unfold strm_ok; simpl; auto.
+  - destruct (i <? length (sp_streams sp))%nat; simpl; [|exact Hc].
+    set (sp1 := {| sp_last := mstore (sp_last sp) (st_path (sp_get sp i)) i; sp_streams := sp_streams sp |}).
+    assert (Hc1 : acct_ok sp1) by exact Hc.
+    destruct (sp_resolve sp (st_path (sp_get sp i))) as [j|]; [|exact Hc1].
+    destruct (Nat.eqb i j); [exact Hc|].
+    destruct (consumers (sp_get sp j) <=? 0); simpl.
+    + apply acct_ok_kill; exact Hc1.
+    + apply acct_ok_set; [exact Hc1|]. exact (Hc j).
+  - destruct (i <? length (sp_streams sp))%nat; simpl; [apply acct_ok_kill|]; exact Hc.
+  - destruct (i <? length (sp_streams sp))%nat; simpl; [apply acct_ok_kill|]; exact Hc.
+  - exact Hc.
+  - exact Hc.
+  - exact Hc.
+  - destruct (i <? length (sp_streams sp))%nat; simpl; auto.
+    destruct (st_live (sp_get sp i)) eqn:Hl; simpl; auto.
+    pose proof (Hc i) as Hi. unfold strm_ok in Hi. rewrite Hl in Hi.
+    apply acct_ok_set; auto. unfold strm_ok; simpl. destruct flv; lia.
+  - destruct (i <? length (sp_streams sp))%nat; simpl; auto.
+    destruct (st_live (sp_get sp i)) eqn:Hl; simpl; auto.
+    destruct ((if flv then st_flv (sp_get sp i) else st_rtp (sp_get sp i)) <=? 0); simpl; auto.
+    pose proof (Hc i) as Hi. unfold strm_ok in Hi. rewrite Hl in Hi.
+    apply acct_ok_set; auto. unfold strm_ok; simpl. destruct flv; lia.
+  - destruct (i <? length (sp_streams sp))%nat; simpl; auto.
+    destruct ((consumers (sp_get sp i) <=? 0) && negb (r && st_hls (sp_get sp i))); simpl; auto.
+    apply acct_ok_kill; exact Hc.
+  - apply (acct_ok_kill_list _ sp Hc).
+Qed.
+
+Lemma acct_ok_init : acct_ok sinit.
+Proof. intros [|i]; unfold strm_ok; simpl; auto. Qed.
+
+Lemma reach_acct_ok ops : acct_ok (sexec sinit ops).
+Proof.
+  assert (H : forall ops sp, acct_ok sp -> acct_ok (sexec sp ops)).
+  { clear ops. induction ops as [|o ops IH]; intros sp Hc; simpl; auto. apply IH, acct_ok_step, Hc. }
+  apply H, acct_ok_init.
+Qed.
+
+Lemma att_total_kill sp i j : st_att_total (sp_get (sp_kill sp i) j) = st_att_total (sp_get sp j).
+Proof.
+  rewrite sp_kill_eq. destruct (negb _); auto. rewrite sp_get_set.
+  destruct (Nat.eqb j i && _)%bool eqn:E; auto.
+  apply andb_true_iff in E as [E _]. apply Nat.eqb_eq in E; subst. reflexivity.
+Qed.
+
+Lemma att_total_kill_list l : forall sp j,
+  st_att_total (sp_get (kill_list sp l) j) = st_att_total (sp_get sp j).
+Proof.
+  induction l as [|e l IH]; intros sp j; simpl; auto. rewrite IH. apply att_total_kill.
+Qed.
+
+(* every consumer ever attached to a stream is either still attached or has been released; a stream
+   that has ended — for whatever reason — has no consumer attached, all of them were released; and
+   the shutdown ends every stream that resolves, releasing all its consumers *)
+Theorem registry_end_releases : forall ops,
+  let sp := sexec sinit ops in
+  (forall i, released (sp_get sp i) + consumers (sp_get sp i) = st_att_total (sp_get sp i)) /\
+  (forall i, st_live (sp_get sp i) = false ->
+     st_rtp (sp_get sp i) = 0 /\ st_flv (sp_get sp i) = 0 /\
+     released (sp_get sp i) = st_att_total (sp_get sp i)) /\
+  (let sp' := fst (sstep sp GUnregistAll) in
+   forall k i, sp_resolve sp k = Some i ->
+     st_live (sp_get sp' i) = false /\ st_rtp (sp_get sp' i) = 0 /\ st_flv (sp_get sp' i) = 0 /\
+     released (sp_get sp' i) = st_att_total (sp_get sp i)).
+Proof.
+  intros ops sp.
+  assert (Hgen : forall sp0, acct_ok sp0 ->
+     (forall i, released (sp_get sp0 i) + consumers (sp_get sp0 i) = st_att_total (sp_get sp0 i)) /\
+     (forall i, st_live (sp_get sp0 i) = false ->
+        st_rtp (sp_get sp0 i) = 0 /\ st_flv (sp_get sp0 i) = 0 /\
+        released (sp_get sp0 i) = st_att_total (sp_get sp0 i))).
+  { intros sp0 H. split; intros i; pose proof (H i) as Hi; unfold strm_ok, released, consumers in *.
+    - destruct (st_live (sp_get sp0 i)); lia.
+    - intros Hl. rewrite Hl in *. tauto. }
+  destruct (Hgen sp (reach_acct_ok ops)) as [H1 H2].
+  refine (conj H1 (conj H2 _)).
+  intros sp' k i Hr.
+  assert (Hd : st_live (sp_get sp' i) = false).
+  { exact (proj1 (proj2 (unregist_all_closes_everything ops)) k i Hr). }
+  assert (Hacc : acct_ok sp') by (apply acct_ok_step, reach_acct_ok).
+  destruct (proj2 (Hgen sp' Hacc) i Hd) as [Ha [Hb Hc]].
+  repeat split; auto. rewrite Hc. unfold sp'. rewrite unregist_all_step. apply att_total_kill_list.
+Qed.
+
+(* the implementation model passes C03's registry oracle *)
+Theorem reg_model_passes : forall ops,
+  hist_wf sinit ops = true ->
+  ok_reg_end_C03 ops (end_vec (g_streams (fst (grun rfixed rinit ops)))) = true.
+Proof.
+  intros ops Hwf. unfold ok_reg_end_C03. rewrite end_vec_refines by exact Hwf.
+  unfold end_vec. rewrite map_map. simpl. apply zs_eqb_refl.
+Qed.
+
 (* ------------------------------------------------------------------ *)
 (* 4. the behaviours before the repairs, refuted on the original variant *)
 
@@ -979,7 +1290,8 @@ Definition race_step (c : cfg) (b : bool) : cfg :=
 Definition race_run (c : cfg) (sched : list bool) : cfg := fold_left race_step sched c.
 
 Definition mkstrm (p : bytes) (l h : bool) : strm :=
-  {| st_path := p; st_live := l; st_rtp := 0; st_flv := 0; st_retire := false; st_hls := h |}.
+  {| st_path := p; st_live := l; st_rtp := 0; st_flv := 0; st_retire := false; st_hls := h;
+     st_att_total := 0; st_det_total := 0 |}.
 
 (* three streams on path p; stream 0 is registered and live iff [reg0] (else it has been closed) *)
 Definition race_init (p : bytes) (h0 h1 h2 reg0 : bool) : cfg :=
@@ -1239,7 +1551,8 @@ Definition reg_store_retire (V : rvariant) (g : rstate) (i : nat) (r : option na
       let old := sget g1 j in
       if consumers old <=? 0 then close_stream V g1 j
       else sset g1 j {| st_path := st_path old; st_live := st_live old; st_rtp := st_rtp old;
-                        st_flv := st_flv old; st_retire := true; st_hls := st_hls old |}
+                        st_flv := st_flv old; st_retire := true; st_hls := st_hls old;
+                        st_att_total := st_att_total old; st_det_total := st_det_total old |}
   | None => g1
   end.
 
@@ -1316,3 +1629,22 @@ Example example_hist_ok :
       RCount 1 0; RList [[47;97]]; RUnit; RGet (Some 1%nat); RCount 1 0;
       RIdle true; RGet None; RCount 0 0; RList [] ].
 Proof. vm_compute. auto. Qed.
+
+(* replacement, late unregistration of the replaced stream, shutdown: stream 0 ("/a", one RTP
+   consumer) is replaced by stream 1 (" /A", one FLV consumer); the old publisher leaves; the
+   successor is still found; the shutdown ends it; both consumers have been released *)
+Definition example_shutdown : list gop :=
+  [ GNew [47;97] true; GRegist 0; GAttach 0 false;
+    GNew [32;47;65] false; GRegist 1; GAttach 1 true;
+    GUnregist 0; GGet [47;97]; GCount;
+    GUnregistAll; GGet [47;97]; GCount ].
+
+Example example_shutdown_ok :
+  hist_wf sinit example_shutdown = true /\
+  snd (grun rfixed rinit example_shutdown) = srun sinit example_shutdown /\
+  srun sinit example_shutdown =
+    [ RUnit; RUnit; RUnit; RUnit; RUnit; RUnit; RUnit; RGet (Some 1%nat); RCount 1 1;
+      RUnit; RGet None; RCount 0 0 ] /\
+  end_vec (g_streams (fst (grun rfixed rinit example_shutdown))) = [(false, 1, 1); (false, 1, 1)] /\
+  end_vec (sp_streams (sexec sinit example_shutdown)) = [(false, 1, 1); (false, 1, 1)].
+Proof. vm_compute. auto 10. Qed.
